@@ -183,6 +183,8 @@ enum Ev {
     PushCall(u64),
     PushRet(u64),
     ConsCall(usize),
+    /// the drain closure of consume #id started (the active side has been swapped by then)
+    ConsClosure(usize),
     ConsRet(usize, Vec<f64>, f64),
 }
 struct S {
@@ -194,6 +196,7 @@ fn consume(s: &S, id: usize) {
     let mut got = Vec::new();
     let mut rate = 0.0;
     s.r.consume(|d| {
+        s.log.push(Ev::ConsClosure(id));
         rate = d.sample_rate();
         got = d.collect();
     });
@@ -243,13 +246,19 @@ fn e1(ctx: &Ctx, res: &mut PartResult, pb: usize, two_pushers: bool) {
                     Ev::ConsCall(id) => {
                         open_c.insert(*id, i);
                     }
+                    Ev::ConsClosure(_) => {}
                     Ev::ConsRet(id, got, _) => {
                         conses.push((open_c[id], i));
                         yielded.extend(got.iter());
                     }
                 }
             }
-            let overlap = pushes.iter().any(|(pc, pr)| conses.iter().any(|(cc, cr)| pc < cr && cc < pr));
+            // The recorded defect needs a push that STARTED before the drain closure of an overlapping consume began
+            // (it chose its side before the swap). A push that started after the closure began goes to the fresh side
+            // by design and must never be lost or drained early: that is not covered by the known finding.
+            let closures: std::collections::BTreeMap<usize, usize> = log.iter().enumerate().filter_map(|(i, e)| if let Ev::ConsClosure(id) = e { Some((*id, i)) } else { None }).collect();
+            let cons_ids: Vec<usize> = log.iter().filter_map(|e| if let Ev::ConsCall(id) = e { Some(*id) } else { None }).collect();
+            let overlap = pushes.iter().any(|(pc, pr)| conses.iter().enumerate().any(|(ci, (cc, cr))| pc < cr && cc < pr && closures.get(&cons_ids[ci]).map(|cl| pc < cl).unwrap_or(true)));
             let sig = |base: &str| if overlap { format!("drain-vs-unfinished-push:{}", base) } else { base.to_string() };
             let mut seen = std::collections::BTreeSet::new();
             for v in &yielded {
